@@ -1,6 +1,10 @@
 package mocker
 
-import "github.com/tencent/goom/internal/patch"
+import (
+	"errors"
+
+	"github.com/tencent/goom/internal/patch"
+)
 
 // C03 through the public API: Origin(placeholder) / Origin(&funcVariable) wire the
 // placeholder to the relocated original.
@@ -69,4 +73,82 @@ func VC_C03_origin_wiring() {
 		verifAssert(verifImgLoad(e+uintptr(i)) == vC03Code[i], "C03.wiring.reset-restores-target")
 	}
 	verifReached("C03.wiring")
+}
+
+type vC03T struct{ n int }
+
+func (t *vC03T) M(i int) int             { return i + 1 }
+func vC03PlaceholderM(t *vC03T, i int) int { return i + 2 }
+func vC03CbM(t *vC03T, i int) int          { return i + 2000 }
+
+// the symbol lookup itself is the subject of C10
+//
+//verif:stub github.com/tencent/goom/internal/unexports2.FindFuncByName
+func vC03FindFuncByName(name string) (uintptr, error) {
+	switch name {
+	case "github.com/tencent/goom.vC03Target":
+		return verifFuncCode(vC03Target), nil
+	case "github.com/tencent/goom.(*vC03T).M":
+		return verifFuncCode((*vC03T).M), nil
+	}
+	return 0, errors.New("function symbol not found: " + name)
+}
+
+// VC_C03_origin_wiring_handles: the origin placeholder given through the other handles -
+// a struct method (Struct(x).Method(m).Origin), a function by name (ExportFunc(n).Origin)
+// and a method by name (ExportStruct(s).Method(m).Origin): the placeholder holds the
+// relocated prefix of the target followed by the jump back to its first un-copied
+// instruction, the target diverts to the callback, Reset restores the target.
+func VC_C03_origin_wiring_handles() {
+	vEnv()
+	form := verifChoice("handle", 3)
+	var target, holder interface{} = vC03Target, vC03Placeholder
+	if form != 1 {
+		target, holder = (*vC03T).M, vC03PlaceholderM
+	}
+	e := verifFuncCode(target)
+	tramp := verifFuncCode(holder)
+	verifApart(e, tramp, 256)
+	for i := 0; i < len(vC03Code); i++ {
+		verifImgStore(e+uintptr(i), vC03Code[i])
+	}
+	patch.VerifSetFuncSize(e, len(vC03Code))
+	patch.VerifSetFuncSize(tramp, 96)
+	fixed, n, ferr := patch.VerifRelocated(e, vC03Code, tramp)
+	verifAssert(ferr == nil, "C03.wiring-handles.relocatable")
+	if ferr != nil {
+		return
+	}
+	b := Create()
+	switch form {
+	case 0:
+		b.Struct(&vC03T{}).Method("M").Origin(vC03PlaceholderM).Apply(vC03CbM)
+	case 1:
+		b.ExportFunc("vC03Target").Origin(vC03Placeholder).Apply(vC03Cb)
+	default:
+		b.ExportStruct("*vC03T").Method("M").Origin(vC03PlaceholderM).Apply(vC03CbM)
+	}
+	for i := 0; i < len(fixed); i++ {
+		verifAssert(verifImgLoad(tramp+uintptr(i)) == fixed[i], "C03.wiring-handles.placeholder-starts-with-relocated-prefix")
+	}
+	var m vx86
+	m.havoc()
+	m0 := m
+	jumped := m.runFrom(uint64(tramp) + uint64(len(fixed)))
+	verifAssert(m.ok && jumped, "C03.wiring-handles.jump-back-decodes")
+	verifAssert(m.rip == uint64(e)+uint64(n), "C03.wiring-handles.jump-back-lands-on-first-uncopied-instruction")
+	verifAssert(m.sameExcept(&m0, -1), "C03.wiring-handles.jump-back-changes-no-register")
+	x := verifInt("x")
+	if form == 1 {
+		f, ok := vInvoke(target, "C03.wiring-handles").(func(int) int)
+		verifAssert(ok && f(x) == x+1000, "C03.wiring-handles.target-reaches-callback")
+	} else {
+		f, ok := vInvoke(target, "C03.wiring-handles").(func(*vC03T, int) int)
+		verifAssert(ok && f(&vC03T{}, x) == x+2000, "C03.wiring-handles.target-reaches-callback")
+	}
+	b.Reset()
+	for i := 0; i < len(vC03Code); i++ {
+		verifAssert(verifImgLoad(e+uintptr(i)) == vC03Code[i], "C03.wiring-handles.reset-restores-target")
+	}
+	verifReached("C03.wiring-handles")
 }
